@@ -69,6 +69,14 @@ def run(res, replay=None):
                                'migration_rates': mg}, 'theta': 1.0, 'max_mut': 2})
         cases.append({'spec': {'n_items': [['a', 2], ['b', 2]], 'model': {'kind': 'beta', 'alpha': 1.5, 'scale_time': False},
                                'pop_sizes': {'a': {'0.0': 1.0}, 'b': {'0.0': 0.5}}, 'migration_rates': mg}, 'theta': 0.25, 'max_mut': 2})
+    if not replay:
+        # designed (seed-independent): the documented boundary theta = 0 through BOTH routes (the scalar call and the iterator
+        # get_mutation_configs with its running generated mass), unfolded and folded, one and two demes
+        cases.append({'spec': {'n_items': [['a', 3]], 'model': {'kind': 'kingman'}, 'pop_sizes': {'a': {'0.0': 1.0}}, 'designed': 'theta_zero'},
+                      'theta': 0.0, 'max_mut': 2})
+        cases.append({'spec': {'n_items': [['a', 2], ['b', 2]], 'model': {'kind': 'dirac', 'psi': 0.5, 'c': 1.0, 'scale_time': False},
+                               'pop_sizes': {'a': {'0.0': 1.0}, 'b': {'0.0': 2.0}}, 'migration_rates': {'a>b': {'0.0': 0.5}, 'b>a': {'0.0': 1.0}},
+                               'designed': 'theta_zero'}, 'theta': 0.0, 'max_mut': 2})
     for j_, c in enumerate(cases):
         if j_ % 2 == 1 and c['theta'] > 0:
             c['pre_thetas'] = [0.5, 3.0]
@@ -145,28 +153,32 @@ def run(res, replay=None):
         run_sum, ok = 0.0, True
         for (cf, p), gm in zip(r['iter'], r['generated_mass']):
             run_sum += p
-            if abs(gm - run_sum) > 1e-12 or abs(p - probs.get(tuple(cf), p)) > 1e-13:
+            # (comparisons written so that a NaN fails them)
+            if not (abs(gm - run_sum) <= 1e-12 and abs(p - probs.get(tuple(cf), p)) <= 1e-13):
                 ok = False
-        if not ok or any(b_ < a - 1e-12 for a, b_ in zip(r['generated_mass'], r['generated_mass'][1:])) or \
-                (r['generated_mass'] and r['generated_mass'][-1] > 1 + 1e-9):
+            if theta == 0 and not (p == (1 if sum(cf) == 0 else 0)):
+                res.violation('theta = 0 rule violated by the iterator get_mutation_configs', {'case': c, 'config': cf, 'p': p})
+                break
+        if not ok or any(not (b_ >= a - 1e-12) for a, b_ in zip(r['generated_mass'], r['generated_mass'][1:])) or \
+                (r['generated_mass'] and not (r['generated_mass'][-1] <= 1 + 1e-9)):
             res.violation('generated mass is not the running, non-decreasing sum bounded by 1',
                           {'case': c, 'generated_mass': r['generated_mass'][-5:]})
         # empty configuration = Laplace transform
-        if theta > 0 and not c.get('configs') and abs(r['probs'][0] - r['laplace']) > 1e-9:
+        if theta > 0 and not c.get('configs') and C.gt(abs(r['probs'][0] - r['laplace']), 1e-9):
             res.violation('empty configuration is not the Laplace transform of the total branch length',
                           {'case': c, 'p_empty': r['probs'][0], 'laplace': r['laplace']})
         # folded = sum over unfoldings
         for cf, fp, us in zip(r['fconfigs'], r['fprobs'], r['unfold']):
             if all(tuple(u) in probs for u in us):
                 s_ = sum(probs[tuple(u)] for u in us)
-                if abs(s_ - fp) > 1e-10 * max(1.0, fp):
+                if C.gt(abs(s_ - fp), 1e-10 * max(1.0, fp)):
                     res.violation('folded configuration probability is not the sum over its unfoldings',
                                   {'case': c, 'folded': cf, 'p_folded': fp, 'sum_unfoldings': s_})
         # expected counts
         if theta > 0 and r['generated_mass'] and r['generated_mass'][-1] > 1 - 1e-7:
             for i_ in range(1, n):
                 ec = sum(cf[i_ - 1] * p for cf, p in zip(r['configs'], r['probs']))
-                if abs(ec - theta * r['sfs_mean'][i_]) > 1e-4 * max(1e-3, theta * r['sfs_mean'][i_]):
+                if C.gt(abs(ec - theta * r['sfs_mean'][i_]), 1e-4 * max(1e-3, theta * r['sfs_mean'][i_])):
                     res.violation('expected mutation counts are not theta times the expected SFS',
                                   {'case': c, 'bin': i_, 'expected_count': ec, 'theta_sfs': theta * r['sfs_mean'][i_]})
         res.sample({'spec': c['spec'], 'theta': theta, 'configs': r['configs'][:3], 'probs': r['probs'][:3]}, cap=3)
